@@ -345,6 +345,16 @@ class Context(MutableMapping[Identifier, Symbol]):
             if starred.origin in seen:
                 continue
 
+            # Extension, frozen, and built-in modules have no Python source to expand
+            if starred.origin.suffix != ".py" or not starred.origin.is_file():
+                error.error(
+                    f"unable to expand {starred.code()!r}, the module has no Python "
+                    f"source",
+                    culprit=starred,
+                )
+                seen.add(starred.origin)
+                continue
+
             # Visit node
             with enter_file(starred.origin):
                 starred_ast = ast.parse(starred.origin.read_text())
